@@ -162,3 +162,152 @@ theorem lexesTo_false : LexesTo t!"#false" (.bool false) := by
   exact ⟨rfl, rfl, rfl⟩
 
 end SteelVerif.C12
+
+namespace SteelVerif.C12
+
+/-! ## characters -/
+
+def isHashPlain (c : Char) : Bool :=
+  !(c == '\\' || c == '\'' || c == '`' || c == ',' || c == '(' || c == '[' || c == ')' || c == ']' || isWs c)
+
+theorem scanHashAux_plain (w rest : Text) (hw : ∀ c ∈ w, isHashPlain c = true)
+    (hr : delimStart rest = true) : scanHashAux false (w ++ rest) = (w, rest) := by
+  induction w with
+  | nil => exact scanHashAux_delim rest hr
+  | cons c cs ih =>
+    have hc := hw c (by simp)
+    simp only [isHashPlain, Bool.not_eq_true', Bool.or_eq_false_iff] at hc
+    obtain ⟨⟨⟨⟨⟨⟨⟨⟨h1, h2⟩, h3⟩, h4⟩, h5⟩, h6⟩, h7⟩, h8⟩, h9⟩ := hc
+    have := ih (fun x hx => hw x (by simp [hx]))
+    simp [scanHashAux, h1, h2, h3, h4, h5, h6, h7, h8, h9, this]
+
+/-- `#\` followed by a name whose characters after the first are plain -/
+theorem scanHash_charName (n0 : Char) (ntl rest : Text) (hw : ∀ c ∈ ntl, isHashPlain c = true)
+    (hr : delimStart rest = true) :
+    scanHash ('\\' :: n0 :: (ntl ++ rest)) = ('\\' :: n0 :: ntl, rest) := by
+  simp [scanHash, scanHashAux, scanHashAux_plain ntl rest hw hr]
+
+/-- the shape of `read_hash_value` on a character literal -/
+theorem lexOne_char (p : Nat) (n0 : Char) (ntl rest : Text) (c : Char)
+    (hw : ∀ x ∈ ntl, isHashPlain x = true) (hr : delimStart rest = true)
+    (hname : parseCharName (n0 :: ntl) = .ok c) :
+    (lexOne p '#' ('\\' :: n0 :: (ntl ++ rest))).res = .ok (.chr c) ∧
+    (lexOne p '#' ('\\' :: n0 :: (ntl ++ rest))).rest = rest ∧
+    (lexOne p '#' ('\\' :: n0 :: (ntl ++ rest))).queued = none := by
+  have h1 : lexOne p '#' ('\\' :: n0 :: (ntl ++ rest)) = readHash p (p + 1) ('\\' :: n0 :: (ntl ++ rest)) := rfl
+  rw [h1]
+  unfold readHash
+  rw [scanHash_charName n0 ntl rest hw hr]
+  simp [hname]
+
+theorem parseDigits_zeros (k : Nat) (ds : Text) : parseDigits 16 0 (List.replicate k '0' ++ ds) = parseDigits 16 0 ds := by
+  induction k with
+  | zero => simp
+  | succ k ih =>
+    rw [List.replicate_succ, List.cons_append]
+    simp only [parseDigits]
+    rw [show digitVal '0' = some 0 by decide]
+    simpa using ih
+
+theorem hexLower_mem (n : Nat) (c : Char) (h : c ∈ hexLower n) : ∃ k, k < 16 ∧ c = hexDigitLower k :=
+  natDigits_mem 16 _ (by omega) n c h
+
+theorem hex4_mem (n : Nat) (c : Char) (h : c ∈ hex4 n) : ∃ k, k < 16 ∧ c = hexDigitLower k := by
+  unfold hex4 at h
+  rcases List.mem_append.mp h with h | h
+  · have := List.eq_of_mem_replicate h
+    exact ⟨0, by omega, by rw [this]; rfl⟩
+  · exact hexLower_mem n c h
+
+theorem hexDigitLower_plain : ∀ k, k < 16 → isHashPlain (hexDigitLower k) = true := by decide
+
+theorem hexDigitLower_ne : ∀ k, k < 16 →
+    hexDigitLower k ≠ '{' ∧ hexDigitLower k ≠ '+' ∧ hexDigitLower k ≠ '}' ∧ hexStop (hexDigitLower k) = false ∧
+    hexDigitLower k ≠ '"' ∧ hexDigitLower k ≠ '|' := by decide
+
+theorem hex4_ne_nil (n : Nat) : hex4 n ≠ [] := by
+  unfold hex4
+  intro h
+  have := (List.append_eq_nil_iff.mp h).2
+  exact natDigits_ne_nil _ _ _ this
+
+theorem parse_hex4 (n : Nat) : parseDigits 16 0 (hex4 n) = some n := by
+  unfold hex4
+  rw [parseDigits_zeros]
+  exact parse_hexLower n
+
+theorem parseHexU32_of (ds : Text) (n : Nat) (hne : ds ≠ []) (hplus : ds.head? ≠ some '+')
+    (hp : parseDigits 16 0 ds = some n) (hn : n < 4294967296) : parseHexU32 ds = some n := by
+  cases ds with
+  | nil => exact absurd rfl hne
+  | cons c cs =>
+    have hc : c ≠ '+' := by intro h; subst h; simp at hplus
+    unfold parseHexU32
+    split
+    · rename_i r heq; injection heq with a _; exact absurd a hc
+    · simp [hp, hn]
+
+theorem char_valid (c : Char) : validScalar c.toNat = true := by
+  have h : c.toNat < 0xd800 ∨ (0xdfff < c.toNat ∧ c.toNat < 0x110000) := c.valid
+  unfold validScalar
+  simp only [Bool.or_eq_true, decide_eq_true_eq, Bool.and_eq_true]
+  rcases h with h | h
+  · left; exact h
+  · right; exact ⟨by omega, h.2⟩
+
+theorem char_lt (c : Char) : c.toNat < 4294967296 := by
+  have h : c.toNat < 0xd800 ∨ (0xdfff < c.toNat ∧ c.toNat < 0x110000) := c.valid
+  omega
+
+theorem hexCharOf_of (ds : Text) (c : Char) (hne : ds ≠ []) (hplus : ds.head? ≠ some '+')
+    (hp : parseDigits 16 0 ds = some c.toNat) : hexCharOf ds = .ok c := by
+  unfold hexCharOf
+  rw [parseHexU32_of ds c.toNat hne hplus hp (char_lt c)]
+  simp [char_valid c, Char.ofNat_toNat]
+
+theorem namedChar_u (h : Text) : namedChar ('u' :: h) = none := by
+  simp [namedChar, eqIgnoreAsciiCase]
+
+theorem namedChar_single (c : Char) : namedChar [c] = none := by
+  simp [namedChar, eqIgnoreAsciiCase]
+
+theorem parseCharName_hex (c : Char) : parseCharName ('u' :: hex4 c.toNat) = .ok c := by
+  have hne := hex4_ne_nil c.toNat
+  cases hh : hex4 c.toNat with
+  | nil => exact absurd hh hne
+  | cons h0 htl =>
+    obtain ⟨k, hk, hk'⟩ := hex4_mem c.toNat h0 (by rw [hh]; simp)
+    obtain ⟨e1, e2, _⟩ := hexDigitLower_ne k hk
+    rw [← hk'] at e1 e2
+    have hlen : utf8Len ('u' :: h0 :: htl) > 1 := by
+      have h1 := length_le_utf8Len (h0 :: htl)
+      have h2 := utf8Size_pos 'u'
+      simp only [utf8Len, List.length_cons] at h1 ⊢
+      omega
+    have hpay : charPayload 'u' (h0 :: htl) ('u' :: h0 :: htl) = .ok (h0 :: htl) := by
+      unfold charPayload
+      split
+      · rename_i body heq; injection heq with a _; exact absurd a e1
+      · rfl
+    have hhex : hexCharOf (h0 :: htl) = .ok c := by
+      apply hexCharOf_of _ _ (by simp)
+      · simp; exact e2
+      · rw [← hh]; exact parse_hex4 _
+    unfold parseCharName
+    rw [namedChar_u]
+    simp only [beq_self_eq_true, Bool.true_or, Bool.true_and, decide_eq_true_eq]
+    rw [if_pos hlen, hpay]
+    exact hhex
+
+theorem parseCharName_single (c : Char) : parseCharName [c] = .ok c := by
+  unfold parseCharName
+  rw [namedChar_single]
+  have : ((c == 'u' || c == 'x') && decide (utf8Len [c] > 1)) = false := by
+    by_cases h1 : c = 'u'
+    · subst h1; decide
+    · by_cases h2 : c = 'x'
+      · subst h2; decide
+      · simp [h1, h2]
+  simp [this]
+
+end SteelVerif.C12
